@@ -200,6 +200,9 @@ func runeCount(in *Interp, fr *frame, s value) int {
 				panic(unsupported{"padding of a decimal text token (symbolic width)"})
 			}
 		}
+		if in.allASCII(s) {
+			return len(s.E)
+		}
 		pkg := in.Prog.ImportedPackage("unicode/utf8")
 		f := pkg.Func("RuneCountInString")
 		r := in.callBody(fr, f, []value{s})
